@@ -74,8 +74,8 @@ func cmdHarness(args []string) {
 }
 
 func printResult(res *HarnessResult) {
-	fmt.Printf("== %s: paths=%d steps=%d forks=%d obligations=%d discharged=%d trivial=%d wall=%.1fs\n",
-		res.Name, res.Paths, res.Steps, res.Forks, res.Obligations, res.Discharged, res.Trivial, res.WallS)
+	fmt.Printf("== %s: paths=%d steps=%d forks=%d ifconv=%d obligations=%d discharged=%d trivial=%d wall=%.1fs\n",
+		res.Name, res.Paths, res.Steps, res.Forks, res.IfConv, res.Obligations, res.Discharged, res.Trivial, res.WallS)
 	fmt.Printf("   ended: %v reached: %v\n", res.Ended, res.Reached)
 	fmt.Printf("   solver: %d queries (%d sat, %d unsat, %d unknown, %d errors) %.1fs max %.1fs cache %d by %v\n",
 		res.Solver.Queries, res.Solver.Sat, res.Solver.Unsat, res.Solver.Unknown, res.Solver.Errors, res.Solver.TimeS, res.Solver.MaxS, res.Solver.CacheHits, res.Solver.BySolver)
